@@ -22,7 +22,7 @@ ANCHORS = ["MPRenderer.draw_scenario", "MPRenderer.draw_dynamic_obstacle", "MPRe
            "MPRenderer.draw_phantom_obstacle", "MPRenderer.draw_environment_obstacle", "MPRenderer._draw_occupancy",
            "MPRenderer.draw_lanelet_network", "MPRenderer.draw_planning_problem_set", "MPRenderer.render",
            "BaseParam.__setattr__", "MPRenderer.draw_trajectory", "MPRenderer.draw_goal_region"]
-REQUIRED = ["totality.draw", "totality.render", "totality.rasterised", "types.icon", "types.shape", "renderer.plot-limits", "renderer.focus-obstacle", "renderer.lanelets-in-view-required", "exactness.checked", "exactness.dynamic-trajectory",
+REQUIRED = ["totality.draw", "totality.render", "totality.rasterised", "types.icon", "types.shape", "flag.traffic_light.show_label", "renderer.plot-limits", "renderer.focus-obstacle", "renderer.lanelets-in-view-required", "exactness.checked", "exactness.dynamic-trajectory",
             "exactness.dynamic-set", "exactness.static", "exactness.phantom", "exactness.environment",
             "exactness.window-before-horizon", "exactness.window-after-horizon", "exactness.no-occupancy-at-begin",
             "lanelets.all", "lanelets.subset", "lanelets.empty-list", "propagation.root", "propagation.nested",
@@ -131,6 +131,9 @@ def run(ctx):
         P.lanelet_network.traffic_sign.draw_traffic_signs = flags["signs"] = rng.random() < 0.5
         P.lanelet_network.traffic_sign.show_label = rng.random() < 0.3
         P.lanelet_network.traffic_light.draw_traffic_lights = flags["lights"] = rng.random() < 0.7
+        P.lanelet_network.traffic_light.show_label = flags["light_labels"] = rng.random() < 0.4
+        if flags["light_labels"] and flags["lights"]:
+            ctx.feature("flag.traffic_light.show_label")
         P.lanelet_network.intersection.draw_intersections = flags["intersections"] = rng.random() < 0.5
         P.lanelet_network.intersection.show_label = rng.random() < 0.3
         pids = list(pps.planning_problem_dict)
